@@ -11,6 +11,7 @@ package gabikeys
 //@   safety
 //@   requires bl != nil && d != nil
 //@   ensures wellformed: err == nil ==> forall i in 0..len(deref(bl)) :: deref(bl)[i] != nil && val(deref(bl)[i]) >= 0
+//@   assert at SetString decimal: $2 == 10
 //@   loop 0 invariant 0 <= $i && $i <= len(arr) && fresh(arr) && forall j in 0..$i :: arr[j] != nil && fresh(arr[j]) && val(arr[j]) >= 0
 //@   loop 0 modifies elems(arr), onlyfresh("BV")
 //@   mustfail canary: err != nil
